@@ -466,6 +466,28 @@ func runOpts(fields []string) (out string) {
 		_, c := serve("GET", p.tsrPath)
 		cips = append(cips, c)
 	}
+	// manual dispatch: the context Router.Lookup returns for a request of this route (matched directly, or by adding /
+	// removing a trailing slash) carries the route: Route(), Pattern() and the resolver ClientIP uses are the route's,
+	// exactly what the probe saw when ServeHTTP served the direct request
+	for _, lp := range []string{p.path, p.tsrPath} {
+		if lp == "" {
+			continue
+		}
+		t := &mwTrace{}
+		req := mwWithTrace(newReq("GET", p.host, lp), t)
+		lr, cc, ltsr := router.Lookup(foxWriter{newRecWriter()}, req)
+		if lr == nil || cc == nil {
+			continue
+		}
+		if lr == rt {
+			ip, err := cc.ClientIP()
+			got := itoa(int(cc.Scope())) + ":" + optIPID(ip, err)
+			if cc.Route() != rt || cc.Pattern() != rt.Pattern() || got != c0 {
+				oracle = append(oracle, fmt.Sprintf("Router.Lookup(%s) tsr=%v: context shows route %q and ClientIP %s, the route handler served by ServeHTTP saw %q and %s", hx(lp), ltsr, cc.Pattern(), got, rt.Pattern(), c0))
+			}
+		}
+		cc.Close()
+	}
 	for _, rq := range [][2]string{{"GET", "/nope/nope/nope"}, {"POST", p.path}, {"OPTIONS", p.path}} {
 		_, c := serve(rq[0], rq[1])
 		cips = append(cips, c)
